@@ -327,6 +327,14 @@ Proof.
   apply IH. apply c_step_keeps_wf; exact Hwf.
 Qed.
 
+(* a cookie-less acceptor can only replay what the client put on the wire, i.e. the
+   digest of the SERVER's challenge; unless that coincides with the digest of the
+   client's own fresh challenge, the replay closes *)
+Corollary c_replay_closes : forall ck n cs sch mych rnd,
+  dg ck sch <> dg ck mych ->
+  c_next (CWaitAck n cs sch (dg ck sch) mych (dg ck mych)) (AServerAck (dg ck sch)) ck rnd = CClose.
+Proof. intros; apply c_wrong_digest_closes; assumption. Qed.
+
 Corollary check_server_sound_init : forall ck ops,
   check_C17_server dg ck SWaitName ops (s_trace ck SWaitName ops) = true.
 Proof. intros; apply check_server_sound; exact I. Qed.
@@ -336,3 +344,9 @@ Corollary check_client_sound_init : forall ck ops,
 Proof. intros; apply check_client_sound; exact I. Qed.
 
 End AuthProofs.
+
+(* the symbolic digest used for evaluation is injective on 32-bit challenges *)
+Lemma dg_sym_injective : forall k ch k' ch',
+  ch < 4294967296 -> ch' < 4294967296 ->
+  dg_sym k ch = dg_sym k' ch' -> k = k' /\ ch = ch'.
+Proof. unfold dg_sym; intros; lia. Qed.
